@@ -157,6 +157,9 @@ func init() {
 			rn.Floor("index_sites", 100)
 			res.Merge(rn)
 			res.Merge(flagx.RunLenValue(def, core.Pkgs("./blas/gonum")))
+			cs := loopidx.RunContinueSkip(def, core.Pkgs(blasPkgs...))
+			cs.Floor("loops_with_trailing_induction_updates", 150)
+			res.Merge(cs)
 			sb := stride.RunStepBound(def, core.Pkgs(blasPkgs...))
 			sb.Floor("loops_stepping_by_an_increment", 5)
 			res.Merge(sb)
@@ -958,6 +961,8 @@ func dump(argv []string) {
 		res = zeroed.RunUseEmpty(def)
 	case "lenvalue":
 		res = flagx.RunLenValue(def, core.Pkgs(argv[1:]...))
+	case "contskip":
+		res = loopidx.RunContinueSkip(def, core.Pkgs(argv[1:]...))
 	case "workquery":
 		res = flagx.RunWorkQuery(def, core.Pkgs(argv[1:]...))
 	case "betascale":
